@@ -8,14 +8,14 @@
     yash-env/src/semantics/expansion/split.rs           split_into
     yash-env/src/semantics/expansion/quote_removal.rs   skip_quotes;  attr_strip.rs  strip
     yash-semantics/src/expansion/phrase.rs              Phrase, append, ifs_join, for_each_char_mut
-    yash-semantics/src/expansion/initial/{slice,word,text,param}.rs, param/{resolve,switch,trim}.rs
+    yash-semantics/src/expansion/initial/{slice,word,text,param,tilde}.rs, param/{resolve,switch,trim}.rs
     yash-semantics/src/expansion.rs                     expand_word, expand_word_multiple
     yash-semantics/src/expansion/attr_fnmatch.rs        apply_escapes, to_pattern_chars
     yash-builtin/src/read/{input,assigning}.rs          read, assign
 
   Strings are `List Char`.  A `&mut` environment becomes a returned `Env`; an error keeps the
   environment reached so far (assignments made by `${x=w}` before the error persist, as in Rust).
-  Not modelled: command substitution, arithmetic expansion, tilde expansion, pathname expansion
+  Not modelled: command substitution, arithmetic expansion, pathname expansion
   (the harness runs with `set -f`), `LINENO`-style quirks.  Trim patterns are matched by the C04
   model of yash-fnmatch (`YashModel.Fnmatch.Model`: parser with bracket expressions, translation
   to a regular expression, leftmost-first search, literal fast path) — composed, not re-modelled.
@@ -161,6 +161,9 @@ structure Env where
   /-- variable contexts of the function calls in progress, innermost first (`VariableSet::contexts`
       above the base context); `vars` is the base (global) context -/
   ctxs : List (List (String × Var)) := []
+  /-- the user database as `System::getpwnam_dir` sees it: login name ↦ home directory
+      (`VirtualSystem::home_dirs` in the correspondence run) -/
+  homes : List (List Char × List Char) := []
   deriving Repr
 
 /-- the innermost function context that has the name -/
@@ -322,6 +325,9 @@ mutual
     /-- `DollarSingleQuote`, already unquoted (`string.unquote().0`) -/
     | dsq (s : List Char)
     | dq (t : Text)
+    /-- `Tilde { name, followed_by_slash }` (made by `Word::parse_tilde_front` from a leading unquoted `~`
+        and the unquoted literal characters up to the first `/`) -/
+    | tilde (name : List Char) (slash : Bool)
   inductive Word
     | nil
     | cons (u : WordUnit) (w : Word)
@@ -498,6 +504,52 @@ def doubleQuote : Phrase → Phrase
   | .field cs => .field (quoteField cs)
   | .full fs => .full (fs.map quoteField)
 
+/-! ### Tilde expansion (`initial/tilde.rs`) -/
+
+/-- the variants of `attr.rs` `Origin` by name (the table extractor admits no other name) -/
+def originOfVariant : String → Origin
+  | "Literal" => .literal
+  | "HardExpansion" => .hardExpansion
+  | _ => .softExpansion
+
+/-- a character of a tilde expansion: the `AttrChar { value: c, … }` literal of `tilde::finish` (generated: origin
+    `HardExpansion`, not quoted, not quoting) -/
+def hardChar (c : Char) : AttrChar :=
+  { value := c, origin := originOfVariant Generated.ExpansionTables.tildeCharAttr.1,
+    isQuoted := Generated.ExpansionTables.tildeCharAttr.2.1, isQuoting := Generated.ExpansionTables.tildeCharAttr.2.2 }
+
+/-- the dummy quote an empty tilde expansion leaves so that the field survives field splitting (generated: `"`,
+    origin `HardExpansion`, a quoting character) -/
+def tildeDummyQuote : AttrChar :=
+  { value := Generated.ExpansionTables.tildeDummy.1, origin := originOfVariant Generated.ExpansionTables.tildeDummy.2.1,
+    isQuoted := Generated.ExpansionTables.tildeDummy.2.2.1, isQuoting := Generated.ExpansionTables.tildeDummy.2.2.2 }
+
+/-- `tilde::expand_body`: `~` is the scalar `HOME` (`~` itself when `HOME` is unset or an array), `~name` the
+    home directory `getpwnam_dir(name)` returns (`~name` itself when the name is unknown) -/
+def tildeBody (env : Env) (name : List Char) : List Char :=
+  if name.isEmpty then
+    match env.getScalar Generated.ExpansionTables.tildeHomeVar with
+    | some h => h
+    | none => Generated.ExpansionTables.tildeHomeFallback
+  else
+    match env.homes.lookup name with
+    | some dir => dir
+    | none => Generated.ExpansionTables.tildeUnknownPrefix ++ name
+
+/-- `strip_suffix('/')` when the tilde prefix is followed by a slash -/
+def tildeStrip (chars : List Char) (slash : Bool) : List Char :=
+  if slash && chars.getLast? == some Generated.ExpansionTables.tildeSlash then chars.dropLast else chars
+
+/-- `tilde::finish`: one trailing slash dropped before a following slash; the characters are results of a
+    hard expansion (never split, never a pattern); an empty result becomes a dummy quoting character -/
+def tildeFinish (chars : List Char) (slash : Bool) : List AttrChar :=
+  let attrChars := (tildeStrip chars slash).map hardChar
+  if attrChars.isEmpty then [tildeDummyQuote] else attrChars
+
+/-- `tilde::expand` -/
+def expandTilde (env : Env) (name : List Char) (slash : Bool) : List AttrChar :=
+  tildeFinish (tildeBody env name) slash
+
 /-- tail of `ParamRef::expand`: `into_phrase`, and `$*` joined when not splitting -/
 def finishParam (env : Env) (willSplit : Bool) (p : Param) (value : Option Value) : Phrase :=
   let phrase := intoPhrase value
@@ -576,6 +628,7 @@ mutual
     | .unq u => expandTextUnit env willSplit u
     | .sq s => (env, .ok (singleQuote s))
     | .dsq s => (env, .ok (dollarSingleQuote s))
+    | .tilde name slash => (env, .ok (.field (expandTilde env name slash)))
     | .dq t =>
       match (if t.isNil then (env, .ok Phrase.oneEmptyField) else expandTextGo env false Phrase.zeroFields t) with
       | (env', .error e) => (env', .error e)
@@ -694,6 +747,24 @@ def hasLengthPrefix : List Char → Bool
         | [] => true
       else true
   | _ => false
+
+/-- `WordLexer::switch`: the action a switch symbol stands for (generated table `switchSymbols`) -/
+def swActionOfSymbol (c : Char) : Option SwAction :=
+  (Generated.ExpansionTables.switchSymbols.lookup c).bind fun v =>
+    match v with
+    | "Alter" => some .alter
+    | "Default" => some .default
+    | "Assign" => some .assign
+    | "Error" => some .error
+    | _ => none
+
+/-- `WordLexer::trim`: the side a trim symbol stands for (generated table `trimSymbols`) -/
+def trimSideOfSymbol (c : Char) : Option TrimSide :=
+  (Generated.ExpansionTables.trimSymbols.lookup c).bind fun v =>
+    match v with
+    | "Prefix" => some .prefix
+    | "Suffix" => some .suffix
+    | _ => none
 
 inductive LexMod
   | none
